@@ -932,6 +932,13 @@ pub(crate) async fn prepare_request(
 
     let (operation_name, mut operation) = operation.map_err(|err| vec![err])?;
 
+    if request.mutation_disallowed && operation.node.ty == OperationType::Mutation {
+        return Err(vec![ServerError::new(
+            "Mutations are not allowed for this request (HTTP GET requests must not execute mutations).",
+            Some(operation.pos),
+        )]);
+    }
+
     // remove skipped fields; a variable that is not supplied takes its default value
     let mut skip_variables = request.variables.clone();
     for definition in &operation.node.variable_definitions {
